@@ -194,12 +194,13 @@ class TLV:
                 raise ValueError("Invalid key")
 
             # handle separators properly
-            if key == TLV.kTLVType_Separator:
-                if len(value) == 0:
-                    result.append(key)
-                    result.append(0)
-                else:
-                    raise ValueError("Separator must not have data")
+            if key == TLV.kTLVType_Separator and len(value) != 0:
+                raise ValueError("Separator must not have data")
+
+            # a zero-length value (separators included) is one item of length 0
+            if len(value) == 0:
+                result.append(key)
+                result.append(0)
 
             while len(value) > 0:
                 result.append(key)
